@@ -375,19 +375,23 @@ def clone (tds : TDefs) (ss : Scopes) (s : Sym) (ov : Overrides) : Scopes × Res
       | .recursion => (r.1, .recursion)
       | .ok t => create tds r.1 parts' scope' t s.parent dims'
 
+/-- `self.dimensions or None` (`Array.rescope`, since the `fix:` commit for the rescope route of
+`empty-dimensions-array`): an array without subscripts hands `dimensions=None` to `clone` -/
+def dimsOrNone (n : Nat) : Option Nat := if n = 0 then none else some n
+
 /-- `TypedSymbol.rescope` / `Array.rescope` -/
 def rescope (tds : TDefs) (ss : Scopes) (s : Sym) (sc : Nat) : Scopes × Res Sym :=
   let r := typeOf tds ss s          -- `if self.type:`
   match r.2 with
   | .recursion => (r.1, .recursion)
   | .ok none =>
-    if s.self.cls = .array then clone tds r.1 s { scope := some (some sc), dims := some (some s.self.dims) }
+    if s.self.cls = .array then clone tds r.1 s { scope := some (some sc), dims := some (dimsOrNone s.self.dims) }
     else clone tds r.1 s { scope := some (some sc) }
   | .ok (some _) =>
     if s.self.cls = .array then
       match lookup r.1 sc (key s.name) with
-      | some e => clone tds r.1 s { scope := some (some sc), type := some (some e), dims := some (some s.self.dims) }
-      | none => clone tds r.1 s { scope := some (some sc), dims := some (some s.self.dims) }
+      | some e => clone tds r.1 s { scope := some (some sc), type := some (some e), dims := some (dimsOrNone s.self.dims) }
+      | none => clone tds r.1 s { scope := some (some sc), dims := some (dimsOrNone s.self.dims) }
     else
       let e := lookupType tds r.1 s sc
       match e.2 with
